@@ -67,7 +67,15 @@ def gen_aliases(rng, nodes):
 
 
 def one_case(ctx, rng, nodes, edges, aliases, extra_kw, spacing):
-    arch = rules.make_arch_direct(nodes, edges)
+    if rng.random() < 0.1:
+        n2, e2, lim = rules.refine_for_limit(rng, nodes, edges)        # labels of a LEVEL-LIMITED architecture
+        arch = rules.make_arch_direct(n2, e2, lim)
+        gone = [x for x in n2 if x not in arch.modules]
+        if aliases is not None and gone and rng.random() < 0.5:
+            aliases = dict(aliases)
+            aliases[rng.choice(gone)] = "Deep"           # a module of the source tree that the limited architecture does not contain
+    else:
+        arch = rules.make_arch_direct(nodes, edges)
     kw = dict(extra_kw)
     if spacing is not None:
         kw["spacing"] = spacing
